@@ -76,6 +76,9 @@ Inductive rust_num := RBool | RI32 | RI64 | RU32 | RU64 | RF32 | RF64.
 (* decode_varint_slow: `for count in 0..min(10, <this>)` *)
 Inductive slow_bound := SBRemaining | SBChunk | SBNone.
 
+(* functions of pilota/src/prost that read Buf::chunk() *)
+Inductive chunk_reader := CRDecodeVarint | CROther (line : Z).
+
 (* decode errors, by cause (DecodeError carries only a description string) *)
 Inductive perr :=
 | PVarint          (* "invalid varint" *)
